@@ -103,7 +103,7 @@ set_option linter.unusedSimpArgs false
 
 /-- one round of the translated `while True` loop is one round of the model's modifier stripping:
     for every remaining text and every combination of flags already seen -/
-theorem C14_source_loop_body (e : List Char) (m : Mods) (k : Option PKind) (iv : Option Nat) (idx : Nat) :
+theorem C14_source_loop_body (e : List Char) (m : Mods) (k : Option AxKind) (iv : Option Nat) (idx : Nat) :
     Generated.parserLoopBody.run (mkSt e m k iv idx) = loopSpec e m k iv idx := by
   cases e with
   | nil => simp [Generated.parserLoopBody, PStmt.run, PCond.eval, mkSt, loopSpec, fLenZero]
@@ -152,10 +152,10 @@ theorem C14_source_parser (elem : List Char) (idx : Nat) (iv : Option Nat) :
         obtain ⟨mb, mv, ma, mt⟩ := m
         simp only [tokFinish, classify_feat, mkSt]
         cases h6 : fLenZero base <;> cases h7 : fIsIdent base <;> cases h8 : parseIntLit base <;>
-          cases mb <;> cases mv <;> cases ma <;> cases mt <;> cases iv <;> simp [h6, h7, h8, PKind.same])
+          cases mb <;> cases mv <;> cases ma <;> cases mt <;> cases iv <;> simp [h6, h7, h8, AxKind.same])
   · cases h1 : fComma elem <;> cases h2 : fParen elem <;> cases h3 : fEndsHash elem <;>
       cases h5 : fEqEll elem <;> cases iv <;>
-      simp [Generated.parserBody, PStmt.run, PCond.eval, PSt.flag, PSt.setFlag, PKind.same, h1, h2, h3, h4, h5]
+      simp [Generated.parserBody, PStmt.run, PCond.eval, PSt.flag, PSt.setFlag, AxKind.same, h1, h2, h3, h4, h5]
 
 /-- **for every specification string**: the translated code run over `dim_str.split()` yields the axes and
     the multi-axis index of `parseSpec`, or `ValueError` exactly when `parseSpec` has none — the theorems
